@@ -99,6 +99,26 @@ def gen_cases(c):
             add(1, "R 1 1 10 0 %d %s %s" % (rng.choice((0, 1)), h, script_of(frag)), "R", src, 10, False, "read/no-strip-cr")
             add(1, "R 1 1 13 1 0 %s %s" % (h, script_of(rng.choice(comps))), "R", src, 13, True, "read/delim=CR")
             add(1, "I 1 1 10 1 %d %s" % (rng.choice((0, 1, 2)), h), "I", src, 10, True, "istream/small")
+    # 2b. plain inputs starting with every proper prefix / near miss of a compression magic number: they are NOT
+    #     compressed and must be read as text (pipe, istream, regular file at offset 0 and at unaligned offsets, failing mmap)
+    P0 = os.sysconf("SC_PAGE_SIZE")
+    near = [b"\x1f", b"\x1f\x8c", b"\x1f\x0a\x8b", b"\x8b\x1f", b"B", b"BZ", b"BZH", b"BZi", b"BZ 1234", b"BZ\n", b"Bzh", b"bZh",
+            b"\xfd", b"\xfd7zX", b"\xfd7zXZ", b"\xfd7zXZ\x01", b"\xfd7zXZ\n", b"\xfd7zXz\x00", b"7zXZ\x00"]
+    for pre in near:
+        for tail in (b"", b"\n", b" more text\r\nsecond line\n\nunterminated"):
+            src = pre + tail
+            if not no_magic(src):
+                continue
+            h = hx(src)
+            for page in (1, P0):
+                sc = rng.choice(("-", "S1", "S2,S1", "S1,E,S1,S1,S1,S1", "S5"))
+                add(page, "R %d 1 10 1 %d %s %s" % (page, rng.choice((0, 1, 2)), h, sc), "R", src, 10, True, "near-miss-magic/pipe")
+                add(page, "I %d 1 10 1 0 %s" % (page, h), "I", src, 10, True, "near-miss-magic/istream")
+                add(page, "M %d 1 10 1 0 %s 0 -" % (page, h), "M", src, 10, True, "near-miss-magic/file")
+                add(page, "M %d 1 10 1 0 %s 0 - F0" % (page, h), "M", src, 10, True, "near-miss-magic/file-mmap-fails")
+                for off in (1, 3, 7):
+                    junk = (b"x\n" * 8)[:off]
+                    add(page, "M %d 1 10 1 0 %s %d -" % (page, hx(junk + src), off), "M", src, 10, True, "near-miss-magic/file-at-offset")
     # 3. EINTR / short mixes and records longer than the window, CR and delimiter on window edges
     nrand = 4000 if c.tier == "quick" else 40000
     for _ in range(nrand):
@@ -420,6 +440,10 @@ def tool_level(c, have_vfio):
         if rng.random() < 0.5:
             b[-1] = 10
         inputs.append(bytes(b))
+    # plain text starting with near misses of the magic numbers
+    for pre in (b"\x1f", b"\x1f\x8c", b"BZ", b"BZH", b"BZip2 is a tool", b"BZ 1234 5678", b"\xfd7zXZ", b"\xfd7zXZ\x01"):
+        inputs.append(pre)
+        inputs.append(pre + b" rest of the first line\nsecond line\r\n" + b"z" * 5000 + b"\n")
     # one record longer than the default window (forces the doubling of the 1 MiB window)
     inputs.append(b"q" * (3 * 1048576) + b"\r\n" + b"tail")
     n = 0
